@@ -167,7 +167,9 @@ def ancestors(p, kinds=COMPOUND):
                 walk(h['body'], own)
             if d['kind'] == 'def':
                 walk(p['fns'][d['f'] - 1]['body'], [])
-    walk(p['fns'][0]['body'], [])
+    for f in p['fns']:
+        if f['parent'] == 0:          # the function under test and the module-level functions
+            walk(f['body'], [])
     return [anc[i + 1] for i in range(len(p['nodes']))]
 
 
@@ -294,13 +296,14 @@ def initial_assignments(b, rnd, names, prob, cx=None, objects=False):
     return pre + _initial_assignments(b, rnd, names, prob)
 
 
-def _initial_assignments(b, rnd, names, prob):
+def _initial_assignments(b, rnd, names, prob, fn=1):
     """Most programs start by binding their variables: otherwise half of all generated programs can only end in the
     NameError of their first read and exercise nothing behind it.  The rest keeps possibly-unbound variables."""
     if rnd.random() >= prob:
         return []
     keep = [nm for nm in names if rnd.random() < 0.9]
-    return [b.node(kind='assign', fn=1, tgt=[nm], e=b.T([rnd.choice(['a', 'b'])] if rnd.random() < 0.5 else [])) for nm in keep]
+    arg = ['a', 'b'] if fn == 1 else ['p']
+    return [b.node(kind='assign', fn=fn, tgt=[nm], e=b.T([rnd.choice(arg)] if rnd.random() < 0.5 else [])) for nm in keep]
 
 
 class RandomGen:
@@ -308,8 +311,10 @@ class RandomGen:
 
     def __init__(self, rnd, maxdepth=3, loop_else=False, maxfns=3, ifexp=True, exprstmt=True, dele=True,
                  try_=True, with_=True, calls=True, names=None, hnames=True, directives=True, contexts=None, lam_rate=0.08,
-                 def_rate=0.0, call_rate=0.0, closure_bias=False, init=0.7, obj_rate=0.3):
+                 def_rate=0.0, call_rate=0.0, closure_bias=False, init=0.7, obj_rate=0.3,
+                 globfns=0):
         self.contexts = CONTEXTS if contexts is None else contexts
+        self.globfns = globfns          # number of module-level functions the function under test (and they) can call
         self.init = init                # probability that the program starts by assigning its variables
         self.objects = self.contexts and rnd.random() < obj_rate     # this program keeps attribute state on an object `o`
         self.lam_rate = lam_rate        # share of statements that store / call a lambda value
@@ -464,7 +469,11 @@ class RandomGen:
 
     def call_stmt(self, fn, scope, infinally):
         b = self.b
-        cands = [f for f in range(2, len(b.fns) + 1) if b.fns[f - 1]['parent'] == fn]
+        top = fn
+        while b.fns[top - 1]['parent']:
+            top = b.fns[top - 1]['parent']
+        cands = [f for f in range(2, len(b.fns) + 1) if b.fns[f - 1]['parent'] == fn
+                 or (b.fns[f - 1]['parent'] == 0 and (top == 1 or f < top))]
         if not cands:
             return None
         f = self.r.choice(cands)
@@ -476,6 +485,13 @@ class RandomGen:
     def program(self, lo=2, hi=4):
         b = self.b
         b.fn('f', ['a', 'b'], 0)
+        for _ in range(self.globfns):      # module-level functions: own variables only, converted when they are called
+            params = ['p', 'q'][:self.r.choice([1, 1, 2])]
+            fid = b.fn('G%d' % (len(b.fns) + 1), params, 0)
+            objs, self.objects = self.objects, False     # the object `o` belongs to the function under test
+            gbody = self.block(fid, self.names + params * 2, 1, False, lo=1, hi=3)
+            self.objects = objs
+            b.fns[fid - 1]['body'] = _initial_assignments(b, self.r, self.names, 0.8, fn=fid) + gbody
         body = self.block(1, self.names + ['a', 'b'], 0, False, lo=lo, hi=hi)
         b.fns[0]['body'] = initial_assignments(b, self.r, self.names, self.init, self.cx, self.objects) + body
         return b.finish()
@@ -613,6 +629,11 @@ def r_stmt(p, n, ind, out):
 
 def render(p, name=None):
     out = []
+    for g in p['fns'][1:]:
+        if g['parent'] == 0:          # module-level functions, defined before the function under test
+            out.append((0, 'def %s(%s):' % (g['name'], ', '.join(g['params']))))
+            r_block(p, g['body'], 1, out)
+            out.append((0, ''))
     f = p['fns'][0]
     out.append((0, 'def %s(%s):' % (name or f['name'], ', '.join(f['params']))))
     r_block(p, f['body'], 1, out)
